@@ -97,45 +97,47 @@ LNext == /\\ Assert(LawsOK, "table / digest laws of spec/Adapters.tla violated")
 
 
 def tlc_model(wd, tr):
-    """exhaustive bounded checks of the protocol model + the must-fail variants; returns (states, transitions, configs)"""
-    ev = []
-    st = trn = 0
+    """exhaustive bounded checks of the protocol model + the must-fail variants; returns (states, transitions, configs).
+    The configurations are independent: they run three at a time (TLC with 5 workers each), concurrently with the real runs."""
     inv_byz = ["SenderBinding", "HonestNotImpersonated", "NoFalseEquivocation", "NoBroadcastOnP2PPath"]
     inv_hon = inv_byz + ["Totality"]
+    jobs = []
 
     def run(name, consts, table, invariants, expect=None, timeout=900):
-        nonlocal st, trn
+        jobs.append((name, consts, table, invariants, expect, timeout))
+
+    def do(job):
+        name, consts, table, invariants, expect, timeout = job
         write_model(wd, name, consts, table, invariants)
-        r = vlib.run_tlc(name, name + ".cfg", ["Adapters.tla"], workdir=wd, timeout=timeout, heap="8g")
-        st += r.distinct
-        trn += r.generated
-        ev.append(dict(config=name, table=table, constants=consts, invariants=invariants, distinct_states=r.distinct,
-                       states_generated=r.generated, depth=r.depth, wall_s=round(r.wall, 1), expected_violation=expect, result=r.violation or "holds"))
+        r = vlib.run_tlc(name, name + ".cfg", ["Adapters.tla"], workdir=wd, timeout=timeout, heap="6g", workers=5)
         log("adapters model %s: %r" % (name, r))
         if expect is None and r.violation:
             raise vlib.CheckError("Adapters model %s violates %s at design level:\n%s" % (name, r.violation, "".join(r.error_trace[-3:])))
         if expect is not None and r.violation not in expect:
             raise vlib.CheckError("anti-vacuity: the mutated model %s should violate one of %s but TLC says %s" % (name, expect, r.violation))
+        return r, dict(config=name, table=table, constants=consts, invariants=invariants, distinct_states=r.distinct,
+                       states_generated=r.generated, depth=r.depth, wall_s=round(r.wall, 1), expected_violation=expect, result=r.violation or "holds")
 
     hon = dict(Parties=[1, 2, 3], Byz=[], Outsiders=[], MaxSpoof=0, TrustEmbedded=False)
     byz = dict(Parties=[1, 2, 3], Byz=[3], Outsiders=[], MaxSpoof=1, TrustEmbedded=False)
     byzo = dict(byz, Outsiders=[9])
     hon2 = dict(hon, Parties=[1, 2])
     byz2 = dict(byzo, Parties=[1, 2], Byz=[2])
-    run("ed_kg_h", hon, 'PhaseOf(EdDSATable, "keygen")', inv_hon)
-    run("ed_sg_h", hon, 'PhaseOf(EdDSATable, "sign")', inv_hon)
+    # largest first
+    if tr == "thorough":
+        run("ec_kg_b", byzo, 'PhaseOf(ECDSATable, "keygen")', inv_byz, timeout=2400)
+        run("ed_sg_b2x", dict(byz, MaxSpoof=2), 'PhaseOf(EdDSATable, "sign")', inv_byz, timeout=2400)
+        run("ec_sg_h", hon, 'PhaseOf(ECDSATable, "sign")', inv_hon, timeout=1800)
     run("ed_kg_b", byz if tr == "quick" else byzo, 'PhaseOf(EdDSATable, "keygen")', inv_byz)
     run("ed_sg_b", byz if tr == "quick" else byzo, 'PhaseOf(EdDSATable, "sign")', inv_byz)
+    run("ec_sg_b2", byz2, 'PhaseOf(ECDSATable, "sign")', inv_byz)
+    run("ed_kg_h", hon, 'PhaseOf(EdDSATable, "keygen")', inv_hon)
+    run("ed_sg_h", hon, 'PhaseOf(EdDSATable, "sign")', inv_hon)
     run("ed_sg_o2", dict(byz2, Byz=[]), 'PhaseOf(EdDSATable, "sign")', inv_byz)
     run("ed_kg_b2", byz2, 'PhaseOf(EdDSATable, "keygen")', inv_byz)
     run("ec_kg_h", hon, 'PhaseOf(ECDSATable, "keygen")', inv_hon)
     run("ec_sg_h2", hon2, 'PhaseOf(ECDSATable, "sign")', inv_hon)
     run("ec_kg_b2", byz2, 'PhaseOf(ECDSATable, "keygen")', inv_byz)
-    run("ec_sg_b2", byz2, 'PhaseOf(ECDSATable, "sign")', inv_byz)
-    if tr == "thorough":
-        run("ec_kg_b", byzo, 'PhaseOf(ECDSATable, "keygen")', inv_byz, timeout=1800)
-        run("ec_sg_h", hon, 'PhaseOf(ECDSATable, "sign")', inv_hon, timeout=1800)
-        run("ed_sg_b2x", dict(byz, MaxSpoof=2), 'PhaseOf(EdDSATable, "sign")', inv_byz, timeout=1800)
     # the invariants can fail: (a) two broadcast types of one phase share a round, (b) a broadcast type classified
     # point-to-point, (c) attribution to the embedded claim
     same_round = ('{IF x.url = "eddsa.keygen.KGRound2Message2" THEN [x EXCEPT !.round = 1] ELSE x : x \\in PhaseOf(EdDSATable, "keygen")}')
@@ -143,6 +145,13 @@ def tlc_model(wd, tr):
     misclass = ('{IF x.url = "eddsa.signing.SignRound2Message" THEN [x EXCEPT !.bcast = FALSE] ELSE x : x \\in PhaseOf(EdDSATable, "sign")}')
     run("mut_class", hon, misclass, inv_hon, expect=["NoBroadcastOnP2PPath", "Totality"])
     run("mut_embed", dict(byzo, TrustEmbedded=True), 'PhaseOf(EdDSATable, "keygen")', inv_byz, expect=["SenderBinding", "HonestNotImpersonated"])
+    ev = []
+    st = trn = 0
+    with concurrent.futures.ThreadPoolExecutor(max_workers=3) as ex:
+        for r, e in ex.map(do, jobs):
+            st += r.distinct
+            trn += r.generated
+            ev.append(e)
     return st, trn, ev
 
 
@@ -456,11 +465,13 @@ def session_for(plan, t):
         return None
     s = plan.sessions[m["session"]]
     one = dict(adapter=s["adapter"], ids=s["ids"], thr=s["thr"], keygen=True, keygen_probe=None, signs=[], keygen_t=1)
+    ec = s["adapter"] == "ecdsa"
     if m["phase"] == "keygen":
         one["keygen_probe"] = s.get("keygen_probe")
+        one["keygen_timeout_ms"] = 400000 if ec else 10000      # alone: typical 15 s / 0.1 s
     else:
         sg = [x for x in s["signs"] if x["t"] == t][0]
-        one["signs"] = [dict(sg, t=2)]
+        one["signs"] = [dict(sg, t=2, timeout_ms=sg.get("timeout_ms") or (30000 if ec else 10000))]   # alone: typical 1.5 s / 0.1 s
         if s["adapter"] == "ecdsa" and s["ids"] == [1, 2, 3] and s["thr"] == 1 and os.path.exists(FIXTURE):
             one["keygen"] = False
             one["shares_in"] = FIXTURE
@@ -530,8 +541,11 @@ def execute(pid, plan, wd, verdict, tr):
         if e2:
             ends[t] = dict(e2, t=t)
         viols += [dict(v, t=t) for v in v2]
-    # outcome monitors are load-sensitive (a run that does not finish): confirm by one re-run alone (at most two re-runs per
-    # failing class; once a class is confirmed its other members are accepted as they are)
+    if dead_all and not any(v["mon"] == "NoPanic" and v["t"] in dead_all for v in viols):
+        raise vlib.CheckError("the driver process died during %d case(s) but none of them crashes when re-run alone; the sessions that "
+                              "had not started were lost" % len(dead_all))
+    # outcome monitors are load-sensitive (a run that does not finish; the driver has already repeated it once): confirm by a
+    # re-run alone; once two such failures have reproduced the others are accepted as they are
     confirmed = []
     reruns = {}          # class -> [reproduced?]
     for v in viols:
@@ -539,7 +553,7 @@ def execute(pid, plan, wd, verdict, tr):
             key = signature(v, plan.meta[v["t"]])
             hist = reruns.setdefault(key, [])
             total = [x for h in reruns.values() for x in h]
-            if not ((len(hist) >= 2 and all(hist)) or (len(total) >= 4 and all(total))):
+            if not (len(total) >= 2 and all(total)):
                 one = session_for(plan, v["t"])
                 v2, e2, ev2, st2, trn2 = rerun_alone(one, wd, "retry%d" % v["t"], plan.meta[v["t"]]["phase"])
                 stats["st"] += st2
@@ -591,8 +605,9 @@ def execute(pid, plan, wd, verdict, tr):
         for o in e.get("obs", []):
             src = "handbuilt" if m["phase"] == "table" else "real"
             stats["observed"].setdefault(o["url"], set()).add(src)
-    if _retried:
-        stats["drift"]["a run did not finish at its first attempt and was repeated by the driver (end-of-run message loss in the adapter under load)"] = len(_retried)
+    recovered = [t for t in _retried if ends.get(t, {}).get("completed")]
+    if recovered:
+        stats["drift"]["a run did not finish at its first attempt and completed when the driver repeated it (end-of-run message loss in the adapter under load)"] = len(recovered)
     stats["traces"] = len(all_traces)
     stats["events"] = sum(len(v) for v in all_traces.values())
     stats["selftest"], st3, trn3 = selftest(all_traces, plan, wd)
@@ -747,12 +762,14 @@ def run(pid):
     verdict = vlib.Verdict(pid)
     r, tabs = tlc_laws(wd)
     log("adapters laws: %r" % r)
-    st, trn, configs = tlc_model(wd, tr)
-    st += r.distinct
-    trn += r.generated
     plan = plan_for(tr, rng, tabs, wd)
     log("adapters: %d sessions, %d traces planned, %d hand-built classifications" % (len(plan.sessions), plan.next_t - 1, len(plan.classify)))
-    stats = execute(pid, plan, wd, verdict, tr)
+    with concurrent.futures.ThreadPoolExecutor(max_workers=1) as ex:
+        model = ex.submit(tlc_model, wd, tr)         # design-level checks run while the real code is exercised
+        stats = execute(pid, plan, wd, verdict, tr)
+        st, trn, configs = model.result()
+    st += r.distinct
+    trn += r.generated
     log("adapters: %d traces validated, %d runs completed, drift kinds %d, retries %d" % (
         stats["traces"], stats["completed"], len(stats["drift"]), stats["retries"]))
     return finish(pid, tr, verdict, st, trn, configs, tabs, plan, stats)
